@@ -25,9 +25,9 @@ BACKENDS = ["np", "torch", "tf"]
 OPS = {
     "get_components": ["np", "torch", "tf"],          # selection (Pose.get_components -> body.get_points)
     "select_frames": ["np", "torch", "tf"],           # selection of frames
-    "normalize": ["np"],                              # Pose.normalize
-    "normalize_distribution": ["np"],                 # Pose.normalize_distribution (+ returned mu, std)
-    "unnormalize_distribution": ["np"],
+    "normalize": ["np", "tf"],                        # Pose.normalize (Torch: MaskedTensor.mean is not defined -> NotImplementedError)
+    "normalize_distribution": ["np", "tf"],           # Pose.normalize_distribution (+ returned mu, std); Torch as above
+    "unnormalize_distribution": ["np", "torch", "tf"],   # with plain (T, D) operands of the backend's own kind
     "flip": ["np"],
     "matmul": ["np", "torch", "tf"],
     "augment2d": ["np", "torch", "tf"],
@@ -265,12 +265,19 @@ class Impl:
             res = pose.normalize(PoseNormalizationInfo(prm["p1"], prm["p2"]), scale_factor=prm.get("scale", 1)).body
         elif op == "normalize_distribution":
             mu, std = pose.normalize_distribution(axis=tuple(prm.get("axis", (0, 1))))
-            extra = {"mu": vis_marr(mu), "std": vis_marr(std)}
+            if backend == "np":
+                extra = {"mu": vis_marr(mu), "std": vis_marr(std)}
+            else:       # TensorFlow: the statistics are MaskedTensors (validity masks)
+                extra = {"mu": vis_masked_pair(mu.tensor.numpy(), mu.mask.numpy()), "std": vis_masked_pair(std.tensor.numpy(), std.mask.numpy())}
             res = pose.body
         elif op == "unnormalize_distribution":
             T, D = case["shape"][2], case["shape"][3]
             mu = np.array([from_b64(w) for w in prm["mu"]]).reshape(T, D)
             std = np.array([from_b64(w) for w in prm["std"]]).reshape(T, D)
+            if backend == "torch":      # a torch.Tensor does not multiply with an ndarray: operands of the backend's own kind
+                mu, std = self.torch.from_numpy(mu.astype(np.float32)), self.torch.from_numpy(std.astype(np.float32))
+            elif backend == "tf":
+                mu, std = self.tf.constant(mu, dtype=self.tf.float32), self.tf.constant(std, dtype=self.tf.float32)
             pose.unnormalize_distribution(mu, std)
             res = pose.body
         elif op == "flip":
@@ -496,7 +503,10 @@ def model_request(case, fill, impl_out):
     elif op == "normalize_distribution":
         p = [len(prm.get("axis", (0, 1)))]
     elif op == "unnormalize_distribution":
-        p = [list(prm["mu"]), list(prm["std"])]
+        if backend == "np":
+            p = [list(prm["mu"]), list(prm["std"])]
+        else:       # Torch / TensorFlow operands are float32 tensors
+            p = [[b64(np.float32(from_b64(w))) for w in prm["mu"]], [b64(np.float32(from_b64(w))) for w in prm["std"]]]
     elif op == "flip":
         p = [prm["axis"]]
     elif op == "matmul":
